@@ -205,6 +205,10 @@ class World:
         c['pdecode'] = t.pick([0, 3, 10], 'pdecode') if faulty and t.draw(3, 'f_decode') == 2 else 0
         c['preply'] = t.pick([0, 3, 10], 'preply') if faulty and t.draw(3, 'f_reply') == 2 else 0
         c['pslow'] = t.pick([0, 5, 20], 'pslow') if faulty and t.draw(2, 'f_slow') else 0
+        # a request that takes seconds (adaptive scale-up waits 3 s) and a client
+        # that pauses for more than the 60 s scale-down delay; virtual time is free
+        c['pstuck'] = t.pick([0, 3], 'pstuck') if t.draw(4, 'f_stuck') == 3 else 0
+        c['longpause'] = t.draw(4, 'f_longpause') == 3
         c['ndrop'] = t.draw(3, 'ndrop') if faulty and c['pool'] == 'multitenant' and t.draw(2, 'f_drop') else 0
         c['ntemplatecrash'] = (t.draw(2, 'ntemplatecrash') if faulty and c['pool'] != 'adaptive'
                                and t.draw(4, 'f_tmpl') == 3 else 0)
@@ -331,10 +335,12 @@ class World:
         self.hung = (pend, live)
 
     hung = None
+    pool_started = False
 
     async def main(self):
         c, t, loop = self.cfg, self.tape, self.loop
         await self.pool.start()
+        self.pool_started = True
         self.ev('pool_started', len(self.pool._workers))
         for i in range(c['nclients']):
             self.client_tasks.append(loop.harness_task(self.client(i)))
@@ -447,8 +453,12 @@ class World:
         c, t, loop = self.cfg, self.tape, self.loop
         tn = t.draw(c['ntenants'], 'client_tenant')
         txs = 0
+        pause_at = t.draw(c['nreq'], 'longpause_at') if c['longpause'] and i == 0 else -1
         for r in range(c['nreq']):
             await asyncio.sleep(t.draw(c['think'] + 1, 'think') * MS)
+            if r == pause_at:
+                self.probes['long_pause'] += 1
+                await asyncio.sleep(61.0 + t.draw(10, 'longpause_len'))
             if c['ntenants'] > 1 and t.draw(4, 'switch_tenant') == 3:
                 tn = t.draw(c['ntenants'], 'client_tenant2')
             if t.chance(c['pmutate'], 100, 'mutate'):
@@ -752,6 +762,8 @@ class World:
         else:
             tr.children.append(self.spawn(mod, version, template=None, pid=tr.pid))
         self.ev('exec', tr.kind, numproc or 1, version)
+        if self.pool_started and not numproc:
+            self.probes['adaptive_worker_spawned_after_start'] += 1
         return tr, proto
 
     def spawn(self, kind, version, template=None, pid=None, delay=None):
@@ -770,6 +782,8 @@ class World:
     def worker_connects(self, wk):
         if not wk.alive or self.stopping or self.factory is None:
             return
+        if wk.template is not None and any(tr.version > wk.version for tr in self.templates):
+            self.probes['outdated_worker_connects'] += 1
         wk.proto = self.factory()
         wk.transport = FakeTransport(self, wk)
         wk.stream = self.mods['amsg'].MessageStream()
@@ -806,6 +820,9 @@ class World:
         if c['pslow'] and t.chance(c['pslow'], 100, 'slow_worker'):
             lat = 20 + lat * 5
             self.faults['slow_worker'] += 1
+        if c['pstuck'] and t.chance(c['pstuck'], 100, 'stuck_worker'):
+            lat = 3500 + lat * 100
+            self.faults['very_slow_worker'] += 1
         self.loop.call_later(lat * MS, self.serve, wk)
 
     def serve(self, wk):
@@ -825,6 +842,8 @@ class World:
             if not meta.get('done'):
                 self.open_by_worker[wk.pid].add(tag)
         is_init = methname == '__init_worker__'
+        if not is_init:
+            self.note_transfer(methname, args)
         if not is_init and c['pcrash'] and t.chance(c['pcrash'], 100, 'crash_before'):
             self.faults['crash_before_request'] += 1
             if meta is not None:
@@ -863,6 +882,40 @@ class World:
         wk.busy = False
         self.deliver(wk, rid, frame, is_init, meta)
         self.pump(wk)
+
+    def note_transfer(self, methname, args):
+        """Reach probes: how much state travelled with this request."""
+        try:
+            marker = self.mods['state'].REUSE_LAST_STATE_MARKER
+            if methname == 'compile_in_tx':
+                if self.wkind == 'worker':
+                    dbname, us, cstate = args[0], args[1], args[2]
+                else:
+                    dbname, us, cstate = args[2], args[3], args[4]
+                if cstate == marker:
+                    self.probes['in_tx:reuse_marker'] += 1
+                elif dbname is not None:
+                    self.probes['in_tx:state+dbname_reference'] += 1
+                else:
+                    self.probes['in_tx:state+root_schema'] += 1
+            elif methname == 'call_for_client':
+                ps, inval = args[1], args[2]
+                if inval:
+                    self.probes['mt:invalidation_sent'] += 1
+                if ps is None:
+                    self.probes['sent:nothing'] += 1
+                elif ps.global_schema is not None and ps.instance_config is not None and ps.dbs is not None:
+                    self.probes['sent:full_or_all'] += 1
+                else:
+                    self.probes['sent:partial'] += 1
+            elif methname in ('compile', 'compile_notebook', 'compile_sql', 'compile_graphql'):
+                n = sum(1 for a in args[1:6] if a is not None)
+                self.probes['sent:nothing' if n == 0 else 'sent:full_or_all' if n == 5 else 'sent:partial'] += 1
+                if 0 < n < 5:
+                    mask = ''.join(k for k, a in zip('urgds', args[1:6]) if a is not None)
+                    self.probes['sent:partial:' + mask] += 1
+        except Exception:
+            self.probes['transfer_probe_unavailable'] += 1
 
     def deliver(self, wk, rid, frame, is_init, meta):
         proto = wk.proto
@@ -993,6 +1046,8 @@ class World:
             wk.busy = False
             wk.inbox.clear()
             self.ev('server_abort', wk.version)
+            if not self.stopping:
+                self.probes['worker_retired_by_pool'] += 1
             self.loop.call_soon(self.connection_lost, wk)
 
     def os_kill(self, pid):
@@ -1000,6 +1055,7 @@ class World:
         if wk is None:
             raise ProcessLookupError(pid)
         self.ev('os_kill', wk.version)
+        self.probes['adaptive_scale_down_kill'] += 1
         if wk.alive:
             self.mark_inflight_killed(wk)
             wk.alive = False
